@@ -51,6 +51,11 @@ FAMILIES = {
     "annulus": [circle(0, 0, 3), circle(0, 0, 1.25)],
     "slot": [{"t": "slot", "c": [0, 0], "half": 2.0, "r": 1.0}],
     "nested4_mixed": [rect(-8, -8, 8, 8), circle(0, 0, 6), rect(-3, -3, 3, 3), circle(0, 0, 1)],
+    # curves whose vertex cycle has only three nodes
+    "triangle": [{"t": "poly", "pts": [[0, 0], [4, 0], [1, 3]]}],
+    "triangle_hole": [rect(0, 0, 10, 10), {"t": "poly", "pts": [[2, 2], [6, 2], [3, 5]]}],
+    "half_disc": [{"t": "halfdisc", "c": [1.0, -2.0], "r": 2.0}],
+    "half_disc_in_rect": [rect(-5, -5, 5, 5), {"t": "halfdisc", "c": [0.0, 0.0], "r": 2.0}],
 }
 
 
@@ -65,6 +70,9 @@ def _bbox(s):
     if s["t"] == "circle":
         c = np.array(s["c"], float)
         return c - s["r"], c + s["r"]
+    if s["t"] == "halfdisc":
+        c = np.array(s["c"], float)
+        return c - [s["r"], 0.0], c + [s["r"], s["r"]]
     c = np.array(s["c"], float)
     return c - [s["half"] + s["r"], s["r"]], c + [s["half"] + s["r"], s["r"]]
 
@@ -77,6 +85,8 @@ def _exact(s):
         return a, float(np.linalg.norm(p - np.roll(p, -1, axis=0), axis=1).sum()), False
     if s["t"] == "circle":
         return math.pi * s["r"] ** 2, 2 * math.pi * s["r"], True
+    if s["t"] == "halfdisc":
+        return math.pi * s["r"] ** 2 / 2, math.pi * s["r"] + 2 * s["r"], True
     return math.pi * s["r"] ** 2 + 4 * s["half"] * s["r"], 2 * math.pi * s["r"] + 4 * s["half"], True
 
 
@@ -132,6 +142,15 @@ def build(c):
                 mid = add((cx + r * math.cos(am), cy + r * math.sin(am)))
                 pts = [ends[i], mid, ends[(i + 1) % k]]
                 ents.append(Arc(points=pts[::-1] if plan["rev"][i] else pts))
+        elif s["t"] == "halfdisc":
+            # one three-point arc (upper half circle, control point anywhere on it) and its chord
+            cx, cy, r = s["c"][0], s["c"][1], s["r"]
+            a, b = add((cx + r, cy)), add((cx - r, cy))
+            am = plan["mid"][0] * math.pi
+            mid = add((cx + r * math.cos(am), cy + r * math.sin(am)))
+            arc, chord = [a, mid, b], [b, a]
+            ents.append(Arc(points=arc[::-1] if plan["rev"][0] else arc))
+            ents.append(Line(points=chord[::-1] if plan["rev"][1] else chord))
         else:  # slot: two lines and two half-circle arcs
             cx, cy, h, r = s["c"][0], s["c"][1], s["half"], s["r"]
             p = [add(q) for q in ((cx - h, cy - r), (cx + h, cy - r), (cx + h, cy + r), (cx - h, cy + r))]
@@ -153,6 +172,8 @@ def _n_entities(fam, plans):
             n += len(plan["cuts"]) + 1
         elif s["t"] == "circle":
             n += 1 if plan.get("closed") else len(plan["angles"])
+        elif s["t"] == "halfdisc":
+            n += 2
         else:
             n += 4
     return n
@@ -185,6 +206,8 @@ def cases(ctx):
                     acc += x
                 plans.append({"angles": ang, "mid": [rng.choice([0.5, 0.5, 0.08, 0.92, 0.3]) for _ in range(k)],
                               "rev": [rng.random() < 0.5 for _ in range(k)]})
+            elif s["t"] == "halfdisc":
+                plans.append({"mid": [rng.choice([0.5, 0.15, 0.85])], "rev": [rng.random() < 0.5 for _ in range(2)]})
             else:
                 plans.append({"mid": [rng.choice([0.5, 0.2, 0.8]) for _ in range(2)], "rev": [rng.random() < 0.5 for _ in range(4)]})
         n = _n_entities(fam, plans)
